@@ -234,7 +234,12 @@ func (eng *Engine) runJobs(tag string, vjobs []vjob, timeout time.Duration, work
 			defer wg.Done()
 			sem <- struct{}{}
 			defer func() { <-sem }()
-			results[i] = eng.discharge(j.g, j.o, j.dir, j.idx, timeout, eng.crossCheck)
+			to := timeout
+			if eng.isUnclaimedName(j.o.name) && to > 3*time.Second {
+				// listed in unclaimed.json (not claimed, reported as such whatever the outcome): a short attempt only
+				to = 3 * time.Second
+			}
+			results[i] = eng.discharge(j.g, j.o, j.dir, j.idx, to, eng.crossCheck)
 			results[i].gen = j.g
 			results[i].dir = j.dir
 			results[i].idx = j.idx
